@@ -663,7 +663,9 @@ StatEv(s, d) == IF d \in {"ok", "fail"} THEN <<Ev("stat", "", "", "", "", s.next
 GroupDone(s, sids) == \A x \in sids : s.stDone[x] # "pending"
 GroupFailed(s, sids) == \E x \in sids : s.stDone[x] = "fail"
 
-\* Exec(d): d = device outcome for commands that call a device ("ok" | "raise" | "fail" | "later"); "ok" otherwise
+\* Exec(d): d = device outcome for commands that call a device ("ok" | "raise" | "fail" | "later" | "nostatus"); "ok" otherwise
+\*   "nostatus": the device call returns something that is not a status (None): _add_status_to_group raises AttributeError
+\*               AFTER the device has been touched (and after it has been noted as moved / uncollected)
 \* RunBundler.monitor: the event stream is named by the message (name=...), by default after the device in this harness
 MonName(m) == IF m.a # "" THEN m.a ELSE m.obj
 MonApply(r, m) ==
@@ -830,23 +832,26 @@ Exec(d) ==
                IF sids = {} THEN S' = Done(PopGroup(s0, m.a), Val("bool:True")) /\ obs' = hook
                ELSE S' = Block(PopGroup(s0, m.a), "wait", m.a, sids) /\ obs' = hook
        [] c \in {"set", "trigger"} ->
-            /\ d \in {"ok", "raise", "fail", "later"}
+            /\ d \in {"ok", "raise", "fail", "later", "nostatus"}
             /\ LET s1 == IF c = "set" THEN [s0 EXCEPT !.moved = @ \cup {m.obj}] ELSE s0 IN
                IF d = "raise" THEN S' = Done(s1, Exc("DevErr")) /\ obs' = hook \o <<EvDev(m.obj, c, "raise", 0)>>
+               ELSE IF d = "nostatus" THEN S' = Done(s1, Exc("Err:AttributeError")) /\ obs' = hook \o <<EvDev(m.obj, c, "nostatus", 0)>>
                ELSE /\ S' = Done(NewStatus(s1, m.a, d), Val("status"))
                     /\ obs' = hook \o <<EvDev(m.obj, c, "", s1.nextSid)>> \o StatEv(s1, d)
        [] c = "kickoff" ->
             \* RunEngine._kickoff 2132-2170: needs an open run (checked before the device is touched); the flyer is marked
             \* uncollected once its kickoff() has returned
-            /\ d \in {"ok", "raise", "fail", "later"} /\ m.obj \in Flyers
+            /\ d \in {"ok", "raise", "fail", "later", "nostatus"} /\ m.obj \in Flyers
             /\ IF ~open THEN d = "ok" /\ S' = Done(s0, IMS) /\ obs' = hook
                ELSE IF d = "raise" THEN S' = Done(s0, Exc("DevErr")) /\ obs' = hook \o <<EvDev(m.obj, c, "raise", 0)>>
                ELSE LET s1 == SetRun(s0, m.run, [r EXCEPT !.uncol = @ \cup {m.obj}]) IN
-                    /\ S' = Done(NewStatus(s1, m.a, d), Val("status"))
-                    /\ obs' = hook \o <<EvDev(m.obj, c, "", s1.nextSid)>> \o StatEv(s1, d)
+                    IF d = "nostatus" THEN S' = Done(s1, Exc("Err:AttributeError")) /\ obs' = hook \o <<EvDev(m.obj, c, "nostatus", 0)>>
+                    ELSE /\ S' = Done(NewStatus(s1, m.a, d), Val("status"))
+                         /\ obs' = hook \o <<EvDev(m.obj, c, "", s1.nextSid)>> \o StatEv(s1, d)
        [] c \in {"complete", "prepare"} ->
-            /\ d \in {"ok", "raise", "fail", "later"} /\ m.obj \in Flyers
+            /\ d \in {"ok", "raise", "fail", "later", "nostatus"} /\ m.obj \in Flyers
             /\ IF d = "raise" THEN S' = Done(s0, Exc("DevErr")) /\ obs' = hook \o <<EvDev(m.obj, c, "raise", 0)>>
+               ELSE IF d = "nostatus" THEN S' = Done(s0, Exc("Err:AttributeError")) /\ obs' = hook \o <<EvDev(m.obj, c, "nostatus", 0)>>
                ELSE /\ S' = Done(NewStatus(s0, m.a, d), Val("status"))
                     /\ obs' = hook \o <<EvDev(m.obj, c, "", s0.nextSid)>> \o StatEv(s0, d)
        [] c = "collect" ->
